@@ -43,35 +43,35 @@ TEXT["C07"] = {
 
 TEXT["C14"] = {
     "technique": "property-based testing (rapid) with per-program fault enumeration; differential between the four Execute entry points and recording / failing writers",
-    "text": "For every generated multi-file program the number T of evaluated tick() outputs is measured and every fault position k in 1..T is injected (fault enumeration, cap 40), plus a caller's writer that fails after 0/1/mid/len-1 bytes. Execute, ExecuteBytes, ExecuteWriter (into io.Writer, *bytes.Buffer and *strings.Builder) and ExecuteWriterUnbuffered must agree on bytes and error text; ExecuteWriter must have written nothing on failure; the unbuffered writer must hold a prefix of the fault-free output; the writer's error must be returned (errors.Is); a fault-free run after the failures must reproduce the original bytes.",
+    "text": "For every generated multi-file program the number T of evaluated tick() outputs is measured and every fault position k in 1..T is injected (fault enumeration, cap 40), plus a caller's writer that fails after 0/1/mid/len-1 bytes. Execute, ExecuteBytes, ExecuteWriter (into io.Writer, *bytes.Buffer and *strings.Builder) and ExecuteWriterUnbuffered must agree on bytes and error text; ExecuteWriter must have written nothing on failure; the unbuffered writer must hold a prefix of the fault-free output; the writer's error must be returned (errors.Is) also when the writer reports it together with progress; ExecuteWriterUnbuffered as first execution of a fresh template must already agree; a fault-free run after the failures must reproduce the original bytes.",
     "note": "Trusted: recording/failing writers and the tick() fault injector of the harness. Faults other than an erroring context function (e.g. panicking user code) are not injected.",
     "design_ref": "DESIGN.md section 3, C14",
 }
 
 TEXT["C15"] = {
     "technique": "property-based testing (rapid); metamorphic relation marked-document vs hand-stripped document, reference implementation for spaceless",
-    "text": "Generated documents (with includes) whose literal text carries random whitespace runs around constructs, every delimiter independently marked with '-', under all four TrimBlocks x LStripBlocks settings, are rendered and compared byte for byte with the same document from which exactly the named whitespace was deleted by hand, compiled with everything off. spaceless is compared with an independent fixed-point implementation of 'remove exactly the whitespace runs between two tags' over bodies with stray angle brackets, multi-line tags and context-supplied markup.",
+    "text": "Generated documents (with includes) whose literal text carries random whitespace runs around constructs, every delimiter independently marked with '-', under all four TrimBlocks x LStripBlocks settings, are rendered and compared byte for byte with the same document from which exactly the named whitespace was deleted by hand, compiled with everything off; documents are single files, files with includes, or two-level hierarchies, and in a quarter of the cases the options are set per template (tpl.Options) with the hand-stripped reference compiled in the same set. spaceless is compared with an independent fixed-point implementation of 'remove exactly the whitespace runs between two tags' over bodies with stray angle brackets, multi-line tags and context-supplied markup.",
     "note": "Trusted: the hand-stripping function (c15Strip) and refSpaceless in harness/props/c15_test.go. Verbatim next to markers, comments next to markers/block tags, and option handling across extends are deliberately outside (see evidence assumptions).",
     "design_ref": "DESIGN.md section 3, C15",
 }
 
 TEXT["C16"] = {
     "technique": "property-based testing (rapid) with an offset-recording source printer + planted-fault injection + metamorphic prefix insertion + exhaustive small strings + native fuzzing",
-    "text": "(1) Layouts written by a printer that knows the byte offset of every lexeme are lexed through the VerifLex hook; the token list must equal the printer's in type, value, trim flag and line/column. (2) For arbitrary strings (exhaustive up to length 5/6 over the lexer alphabet, mutated layouts, native fuzzing) every token's position must lie in the source, be ordered, and hold the token's text. (3) In generated 1-3 file sets exactly one fault of 22 kinds is planted at a known lexeme; the returned *pongo2.Error must name the faulty file, point inside it to text matching its token, for 16 kinds exactly at the planted lexeme, and a random prefix inserted in front must shift the reported offset by exactly its length.",
+    "text": "(1) Layouts written by a printer that knows the byte offset of every lexeme are lexed through the VerifLex hook; the token list must equal the printer's in type, value, trim flag and line/column. (2) For arbitrary strings (exhaustive up to length 5/6 over the lexer alphabet, mutated layouts, native fuzzing) every token's position must lie in the source, be ordered, and hold the token's text. (3) In generated 1-3 file sets exactly one fault of 22 kinds is planted at a known lexeme; the returned *pongo2.Error must name the faulty file, point inside it to text matching its token, for 16 kinds exactly at the planted lexeme, and a random prefix inserted in front must shift the reported offset by exactly its length. (4) C16.anyerror: for token-mutated multi-file programs, whatever error results must name one of the sources, point inside it and hold the reported token's text there.",
     "note": "Trusted: the printer's offset bookkeeping and the line/column arithmetic of the harness; the VerifLex hook (a one-line wrapper around lex). Error kinds other than the 22 planted ones are not examined.",
     "design_ref": "DESIGN.md section 3, C16",
 }
 
 TEXT["C04"] = {
     "technique": "property-based testing (rapid) over execution histories; differential: shared compiled template vs freshly compiled template per execution",
-    "text": "Generated deterministic multi-file programs over every tag are compiled once and executed 2-6 times with contexts drawn from a pool (equal contexts recur; the same names carry different Go types), through randomly chosen entry points, with failing executions mixed in (injected function errors, invalid context keys, division by a zero variable), under both TrimBlocks/LStripBlocks settings. Each (output, error text) is compared with executing the same context on a freshly compiled template that is used exactly once. Exploration-level assurance; the static 'for all reachable functions' facet is not decided.",
+    "text": "Generated deterministic multi-file programs over every tag are compiled once and executed 2-6 times with contexts drawn from a pool (equal contexts recur; the same names carry different Go types), through randomly chosen entry points (Execute, ExecuteBytes, ExecuteWriter, ExecuteWriterUnbuffered, ExecuteBlocks), with failing executions mixed in (injected function errors, invalid context keys, division by a zero variable), under both TrimBlocks/LStripBlocks settings. Each (output, error text) is compared with executing the same context on a freshly compiled template that is used exactly once. Exploration-level assurance; the static 'for all reachable functions' facet is not decided.",
     "note": "Trusted: determinism of the generated programs and of the harness' context values. State that an execution leaves behind but that never influences a later output or error is invisible to this oracle.",
     "design_ref": "DESIGN.md section 3, C04",
 }
 
 TEXT["C05"] = {
     "technique": "property-based testing (rapid) of concurrent workloads under the Go race detector; differential against sequential fresh-compile results",
-    "text": "Generated deterministic programs are compiled once and executed by 2-8 goroutines (1-12 repetitions each, all four entry points, some with injected faults) released together by a barrier while further goroutines call FromCache/FromFile on the same set, with GOMAXPROCS 2/4/16, in a binary built with -race and GORACE=halt_on_error. A race report kills the worker; the write-ahead journal identifies the workload, which is confirmed in fresh processes before it is reported. Every concurrent result must equal what the same context gives on a freshly compiled template executed alone. Exploration-level: schedules are sampled.",
+    "text": "Generated deterministic programs are compiled once and executed by 2-8 goroutines (1-12 repetitions each, all four entry points, some with injected faults) released together by a barrier while further goroutines call FromCache/FromFile on the same set, with GOMAXPROCS 2/4/16, in a binary built with -race and GORACE=halt_on_error. A race report kills the worker; the write-ahead journal identifies the workload, which is confirmed in fresh processes before it is reported. Every concurrent result must equal what the same context gives on a freshly compiled template executed alone. A second generator (C05.raceonly) runs programs with the nondeterministic constructs (random filter, lorem random, now) concurrently with the race detector as only oracle. Exploration-level: schedules are sampled.",
     "note": "Trusted: the Go race detector and the harness' barrier. Schedules are sampled, not enumerated; the static facet (every write reachable from execution entry points) is not decided.",
     "design_ref": "DESIGN.md section 3, C05",
 }
@@ -120,7 +120,7 @@ TEXT["C13"] = {
 
 TEXT["C08"] = {
     "technique": "property-based testing (rapid); differential against a reference resolver that walks the typed value descriptor",
-    "text": "Random nested context values (string- and int-keyed maps, []any, typed slices, arrays by value and by pointer, structs by value / pointer / nil pointer with exported, unexported, embedded, pointer and any-typed fields, value- and pointer-receiver methods, variadic and error-returning methods, functions of every accepted signature shape) are combined with access paths generated by walking the descriptor - valid ones and ones with a wrong turn (missing key, unexported field, out-of-range / negative index through a variable, step on nil, step on a scalar, wrong arity or argument type, failing function, call of a non-function) - and observed through {{ p }}, {{ p|length }} and {% if p %}. A reference resolver over the descriptor predicts value / empty / execution error. Shadowing (tag bindings over context over globals) is checked on fixed templates and, more broadly, by C12.",
+    "text": "Random nested context values (string- and int-keyed maps, []any, typed slices, arrays by value and by pointer, structs by value / pointer / nil pointer with exported, unexported, embedded, pointer and any-typed fields, value- and pointer-receiver methods, variadic and error-returning methods, functions of every accepted signature shape) are combined with access paths generated by walking the descriptor - valid ones and ones with a wrong turn (missing key, unexported field, out-of-range / negative index through a variable, step on nil, step on a scalar, wrong arity or argument type, failing function, call of a non-function) - and observed through {{ p }}, {{ p|length }} and {% if p %}. A reference resolver over the descriptor predicts value / empty / execution error; every template is evaluated twice. C08.hetero applies one parsed path inside a loop to values of different Go types with overlapping member names and compares with element-wise resolution. Shadowing (tag bindings over context over globals) is checked on fixed templates and, more broadly, by C12.",
     "note": "Trusted: the reference resolver c08Resolve and the value builder. Behaviours the property leaves open are discarded (listed in the evidence assumptions).",
     "design_ref": "DESIGN.md section 3, C08",
 }
